@@ -2,7 +2,7 @@ package main
 
 // The linear-time clause: every scaling family of the specification is decoded at doubling sizes; the time per
 // call (minimum of three samples, each sample long enough to be measurable) must not grow faster than 3.2x per
-// doubling over three consecutive doublings (more than 3.2^3 over them, each of them clearly superlinear) - on the
+// doubling over the last three doublings (more than 3.2^3 over them, each of them clearly superlinear) - on the
 // CPU clock of the measuring thread AND on the wall clock (a quadratic decoder shows 4.0 per doubling on both).
 // Families run one after the other, never concurrently with anything else in this process.
 
@@ -15,6 +15,7 @@ import (
 	"math/rand"
 	"runtime"
 	"runtime/debug"
+	"sort"
 	"strings"
 	"syscall"
 	"time"
@@ -255,30 +256,34 @@ func deviationOfFamily(name string) string {
 }
 
 func scaleBatch(c *rp.Ctx, raws []json.RawMessage) []rp.Result {
-	// one thread, no collector while a sample runs (it is run explicitly before every sample)
-	runtime.LockOSThread()
-	defer runtime.UnlockOSThread()
-	defer debug.SetGCPercent(debug.SetGCPercent(-1))
 	seeds.load("")
 	theKeys()
 	theOcsp()
 	if c.Tier == "thorough" {
 		nSamples = 5
 	}
-	res := make([]rp.Result, len(raws))
+	defer debug.SetGCPercent(debug.SetGCPercent(-1)) // no collector while a sample runs (it is run before every sample)
 	report := map[string]interface{}{}
 	elapsed := map[string]int64{}
 	var calls int64
-	for i, raw := range raws {
+	// one worker, one family after the other; the watchdog of runParallel turns a measurement that never ends into a verdict
+	res := runParallel(c, len(raws), 1, func(w *worker, i int) rp.Result {
+		runtime.LockOSThread() // the CPU clock is the clock of this thread
 		var cs scaleCase
-		if err := json.Unmarshal(raw, &cs); err != nil {
+		if err := json.Unmarshal(raws[i], &cs); err != nil {
 			rp.Bug("case %d: %v", i, err)
 		}
-		res[i] = rp.Result{I: i, OK: true, Nontriv: true}
 		famStart := time.Now()
 		series := map[string][]measured{}
 		inputs := map[string][][]byte{}
-		var worst *rp.Result
+		result := rp.Result{I: i, OK: true, Nontriv: true}
+		timed := func(d *decoder, in []byte) (time.Duration, time.Duration, int, string, interface{}, string) {
+			w.begin(fmt.Sprintf("timing decoder %s on scaling family %s at %d bytes", d.name, cs.Name, len(in)))
+			wall, cpu, k, ret, pan, stack := measure(d, in, cs.Arg)
+			w.end()
+			calls += int64(k)
+			return wall, cpu, k, ret, pan, stack
+		}
 	points:
 		for _, p := range cs.Pts {
 			var input []byte
@@ -293,19 +298,16 @@ func scaleBatch(c *rp.Ctx, raws []json.RawMessage) []rp.Result {
 				if d == nil {
 					rp.Bug("family %s: unknown decoder %q", cs.Name, dn)
 				}
-				wall, cpu, k, ret, pan, stack := measure(d, input, cs.Arg)
-				calls += int64(k)
+				wall, cpu, k, ret, pan, stack := timed(d, input)
+				label := fmt.Sprintf("scaling family %s at %d bytes", cs.Name, len(input))
 				if pan != nil {
-					f := &failure{dec: dn, what: fmt.Sprintf("panic: %v", pan), deviation: classify(dn, pan, stack), input: input, stack: stack,
-						label: fmt.Sprintf("scaling family %s at %d bytes", cs.Name, len(input))}
-					r := f.result()
-					worst = &r
+					f := &failure{dec: dn, what: fmt.Sprintf("panic: %v", pan), deviation: classify(dn, pan, stack), input: input, stack: stack, label: label}
+					result = f.result()
 					break points
 				}
 				if strings.HasPrefix(ret, "stall") {
-					f := &failure{dec: dn, what: ret, input: input, label: fmt.Sprintf("scaling family %s at %d bytes", cs.Name, len(input))}
-					r := f.result()
-					worst = &r
+					f := &failure{dec: dn, what: ret, input: input, label: label}
+					result = f.result()
 					break points
 				}
 				m := measured{Bytes: len(input), WallUs: float64(wall) / 1e3, CPUUs: float64(cpu) / 1e3, Calls: k, Ret: ret}
@@ -313,48 +315,61 @@ func scaleBatch(c *rp.Ctx, raws []json.RawMessage) []rp.Result {
 				annotate(s, len(s)-1)
 				series[dn] = s
 				inputs[dn] = append(inputs[dn], input)
-				if n := len(s); excessAt(s, n-1) {
-					s[n-1].Excess = true
-					// measure the points of the alarm once more: noise does not repeat itself
-					again := make([]measured, span+1)
-					for j := range again {
-						in := inputs[dn][n-1-span+j]
-						w2, c2, k2, _, _, _ := measure(d, in, cs.Arg)
-						calls += int64(k2)
-						again[j] = measured{Bytes: len(in), WallUs: float64(w2) / 1e3, CPUUs: float64(c2) / 1e3, Calls: k2}
-						annotate(again, j)
-					}
-					if !excessAt(again, span) {
-						s[n-1].Unconfirmed = true
-						continue
-					}
-					what := fmt.Sprintf("decoder %s, family %s: the time per call grows faster than %.1fx per doubling over three consecutive doublings (measured twice): ", dn, cs.Name, growthLimit)
-					for _, q := range s[maxInt(0, n-1-span):] {
-						what += fmt.Sprintf("%d bytes: %.0f us wall / %.0f us cpu (exponent %.2f / %.2f); ", q.Bytes, q.WallUs, q.CPUUs, q.ExpWall, q.ExpCPU)
-					}
-					what += "again:"
-					for _, q := range again {
-						what += fmt.Sprintf(" %.0f us (%.2f)", q.WallUs, q.ExpWall)
-					}
-					r := rp.Result{I: i, OK: false, Nontriv: true, What: what, Deviation: deviationOfFamily(cs.Name), Observed: map[string]interface{}{"series": s, "again": again}}
-					worst = &r
-					break points
-				}
 				if wall > runCap {
-					break points // larger inputs would only take longer; the verdict needs two excess doublings, not this one
+					break points // larger inputs only take longer
 				}
 			}
 		}
-		if worst != nil {
-			worst.I = i
-			res[i] = *worst
+		// The verdict is taken on the last three doublings of every series, i.e. at the largest sizes (or where a call
+		// got too slow to go on): a quadratic decoder is most quadratic there, while the band where a linear decoder's
+		// working set outgrows the caches (exponent up to 1.6 between 4 and 64 KiB for deep recursion) lies behind.
+		for _, dn := range sortedSeries(series) {
+			s := series[dn]
+			n := len(s)
+			if !result.OK || !excessAt(s, n-1) {
+				continue
+			}
+			s[n-1].Excess = true
+			// measure the points of the alarm once more: noise does not repeat itself
+			d := decoderByName[dn]
+			again := make([]measured, span+1)
+			for j := range again {
+				in := inputs[dn][n-1-span+j]
+				w2, c2, k2, _, _, _ := timed(d, in)
+				again[j] = measured{Bytes: len(in), WallUs: float64(w2) / 1e3, CPUUs: float64(c2) / 1e3, Calls: k2}
+				annotate(again, j)
+			}
+			if !excessAt(again, span) {
+				s[n-1].Unconfirmed = true
+				continue
+			}
+			what := fmt.Sprintf("decoder %s, family %s: the time per call grows faster than %.1fx per doubling over the last three doublings (measured twice): ", dn, cs.Name, growthLimit)
+			for _, q := range s[maxInt(0, n-1-span):] {
+				what += fmt.Sprintf("%d bytes: %.0f us wall / %.0f us cpu (exponent %.2f / %.2f); ", q.Bytes, q.WallUs, q.CPUUs, q.ExpWall, q.ExpCPU)
+			}
+			what += "again:"
+			for _, q := range again {
+				what += fmt.Sprintf(" %.0f us (%.2f)", q.WallUs, q.ExpWall)
+			}
+			result = rp.Result{I: i, OK: false, Nontriv: true, What: what, Deviation: deviationOfFamily(cs.Name), Observed: map[string]interface{}{"series": s, "again": again}}
 		}
 		report[cs.Name] = series
 		elapsed[cs.Name] = time.Since(famStart).Milliseconds()
-	}
+		result.I = i
+		return result
+	})
 	st := newStats()
 	st.write(c.Extra["statsdir"], "scale", map[string]interface{}{"families": report, "calls": calls, "elapsed_ms": elapsed})
 	return res
+}
+
+func sortedSeries(m map[string][]measured) []string {
+	var k []string
+	for n := range m {
+		k = append(k, n)
+	}
+	sort.Strings(k)
+	return k
 }
 
 func maxInt(a, b int) int {
